@@ -10,8 +10,10 @@ package locate
 // counted.
 //
 //   (1) bounded attempts   attempts(send) <= maxReplicaAttempt*replicas + H + 2, H = NotLeader-with-hint answers of
-//                          this send (each hint may give the hinted peer one more try), and attempts < 2000 whatever
-//                          the script ("retries for ever" otherwise; the harness then breaks the loop itself);
+//                          this send (each hint may give the hinted peer one more try); no single store takes part
+//                          (as target or forwarding proxy) in more than maxReplicaAttempt + replicas + H attempts;
+//                          and attempts < 2000 whatever the script ("retries for ever" otherwise; the harness then
+//                          breaks the loop itself);
 //   (2) truthful result    exactly one of: the response object the script produced for the *last* attempt of this send
 //                          (pointer and bytes identical), a response carrying a region error, or an error — and an
 //                          error only if the Backoffer refuses a further back-off (budget spent), the script cancelled
@@ -36,7 +38,7 @@ import (
 )
 
 const c10Rule = "one evaluation = one SendReqCtx/SendReqAsync call of the real sender against a scripted client; " +
-	"clauses: (1) attempts <= maxReplicaAttempt*replicas + #NotLeader-hints + 2 and < 2000 (counted, never timed), " +
+	"clauses: (1) attempts <= maxReplicaAttempt*replicas + #NotLeader-hints + 2, per store (target or proxy) <= maxReplicaAttempt + replicas + #hints, and < 2000 (counted, never timed), " +
 	"(2) result is the script's own last response (pointer+bytes) | a region-error response | an error with the budget spent / context cancelled / read-ts rejected, " +
 	"(3) no write attempt carries ReplicaRead/StaleRead, (4) rejected read-ts => zero attempts, (5) attempts 2.. carry IsRetryRequest; " +
 	"distinct = distinct (script kinds, mode, read|write|other, forwarding, sync|async) among non-trivial sends (>=2 attempts or a result other than the first answer's success)"
@@ -110,8 +112,7 @@ func c10Dominant(cli *c10Client) string {
 	return best
 }
 
-// c10Run executes one case and judges it.
-func c10Run(r *vrep.Report, st *c10Stats, c *c10Case) {
+func c10Defaults(c *c10Case) {
 	if c.TimeoutMs == 0 {
 		c.TimeoutMs = 30000
 	}
@@ -121,8 +122,52 @@ func c10Run(r *vrep.Report, st *c10Stats, c *c10Case) {
 	if c.Stores == 0 {
 		c.Stores = 3
 	}
-	t := st.topo(c.Stores)
-	out := c10Send(t, c)
+}
+
+// c10Run executes one case (with the sends that precede it on the same cache, if any) and judges it.
+func c10Run(r *vrep.Report, st *c10Stats, c *c10Case) {
+	if len(c.Before) > 0 {
+		seq := append(append([]*c10Case{}, c.Before...), c)
+		c10RunSession(r, st, seq)
+		return
+	}
+	c10Defaults(c)
+	c10Judge(r, st, c, c10Send(st.topo(c.Stores), c))
+}
+
+// c10RunSession executes a sequence of sends on one RegionCache (one cached region: leader, store liveness, store
+// epochs and the proxy remembered by a successful forwarding carry over) and judges every send.
+func c10RunSession(r *vrep.Report, st *c10Stats, seq []*c10Case) {
+	for _, c := range seq {
+		c10Defaults(c)
+		c.Stores, c.Forwarding, c.Leader, c.Slow = seq[0].Stores, seq[0].Forwarding, seq[0].Leader, seq[0].Slow
+	}
+	w := c10OpenWorld(st.topo(seq[0].Stores), seq[0])
+	defer w.close()
+	r.Count("sessions", 1)
+	for i, c := range seq {
+		c.Before = nil
+		for _, b := range seq[:i] {
+			bb := *b
+			bb.Before = nil
+			c.Before = append(c.Before, &bb)
+		}
+		out := w.send(c)
+		if i > 0 {
+			r.Count("sends_on_reused_cache", 1)
+			if out.proxyBefore >= 0 {
+				r.Count("sends_starting_with_remembered_proxy", 1)
+				if out.cli.nFwd > 0 {
+					r.Count("sends_forwarding_with_remembered_proxy", 1)
+				}
+			}
+		}
+		c10Judge(r, st, c, out)
+	}
+}
+
+// c10Judge applies the oracle clauses to one executed send.
+func c10Judge(r *vrep.Report, st *c10Stats, c *c10Case, out *c10Outcome) {
 	cli := out.cli
 	r.Eval(1)
 	A := cli.nAtt
@@ -144,7 +189,7 @@ func c10Run(r *vrep.Report, st *c10Stats, c *c10Case) {
 				res["region_error"] = re.String()
 			}
 		}
-		return map[string]any{"case": c, "trace": cli.attempts, "result": res, "replicas": out.n}
+		return map[string]any{"case": c, "trace": cli.attempts, "result": res, "replicas": out.n, "remembered_proxy_idx": out.proxyBefore}
 	}
 	if out.panicked != nil {
 		class = "panic"
@@ -183,6 +228,25 @@ func c10Run(r *vrep.Report, st *c10Stats, c *c10Case) {
 	} else if A > bound {
 		r.Violate("attempt-bound:"+c10Dominant(cli), fmt.Sprintf("%d attempts > bound %d (=%d*%d replicas + %d hints + 2) on script [%s] mode=%s cmd=%s",
 			A, bound, maxReplicaAttempt, out.n, cli.hints, c.scriptString(), c.Mode, c.Cmd), detail())
+	}
+
+	if !cli.capHit {
+		// per replica: a store takes part in an attempt as target or as forwarding proxy only while it has attempts
+		// left (at most maxReplicaAttempt), plus the forwarded attempts of an unreachable leader (one per other
+		// replica), plus the extra chances given by hints.
+		perStore := maxReplicaAttempt + out.n + cli.hints
+		ids := make([]uint64, 0, len(cli.uses))
+		for id := range cli.uses {
+			ids = append(ids, id)
+		}
+		sort.Slice(ids, func(i, j int) bool { return ids[i] < ids[j] })
+		for _, id := range ids {
+			if cli.uses[id] > perStore {
+				r.Violate("attempt-bound-per-replica:"+c10Dominant(cli), fmt.Sprintf("store %d took part in %d attempts of one send > bound %d (=%d + %d replicas + %d hints) on script [%s] mode=%s cmd=%s forwarding=%v",
+					id, cli.uses[id], perStore, maxReplicaAttempt, out.n, cli.hints, c.scriptString(), c.Mode, c.Cmd, c.Forwarding), detail())
+				break
+			}
+		}
 	}
 
 	// ---- (2) truthful result (not judged when the harness broke the loop, or when a rejected read was sent:
@@ -287,7 +351,14 @@ func c10Run(r *vrep.Report, st *c10Stats, c *c10Case) {
 		r.Count("free_same_store_resend_after:"+k, n)
 	}
 	if A >= 2 || (class != "success") {
-		r.Distinct(fmt.Sprintf("%s|%s|%s|%v|%v", c.kindsString(), c.Mode, c10CmdClass(c.Cmd), c.Forwarding, c.Async))
+		fp := fmt.Sprintf("%s|%s|%s|%v|%v", c.kindsString(), c.Mode, c10CmdClass(c.Cmd), c.Forwarding, c.Async)
+		for _, b := range c.Before {
+			fp = b.kindsString() + ";" + fp
+		}
+		if len(c.Before) > 0 {
+			fp += fmt.Sprintf("|proxy=%v|unreach=%v", out.proxyBefore >= 0, c.Unreach)
+		}
+		r.Distinct(fp)
 	}
 	if A >= 3 && r.SampleN() < 5 && (c.Forwarding == (r.SampleN()%2 == 1)) {
 		r.Sample(detail())
@@ -385,6 +456,28 @@ func c10RandStep(rng *rand.Rand, kinds []string) c10Step {
 	return s
 }
 
+// c10AllSteps: every fault kind with every variant.
+func c10AllSteps() []c10Step {
+	var last []c10Step
+	for _, k := range append(append([]string{}, c10StatementKinds...), c10ExtraKinds...) {
+		switch k {
+		case c10NLHint:
+			for _, a := range []int{c10PingPong, 1, 2, 0, -1} {
+				last = append(last, c10Step{K: k, A: a})
+			}
+		case c10ENMRegs:
+			for a := 0; a < 3; a++ {
+				last = append(last, c10Step{K: k, A: a})
+			}
+		case c10DeadlineR:
+			last = append(last, c10Step{K: k}, c10Step{K: k, A: 1})
+		default:
+			last = append(last, c10Step{K: k})
+		}
+	}
+	return last
+}
+
 func c10Replay() *c10Case {
 	p := vrep.ReplayPath()
 	if p == "" {
@@ -478,23 +571,7 @@ func TestVerifC10Scripts(t *testing.T) {
 	r.Flush()
 
 	// for-ever part: budget exhaustion and unbounded retry
-	var last []c10Step
-	for _, k := range all {
-		switch k {
-		case c10NLHint:
-			for _, a := range []int{c10PingPong, 1, 2, 0, -1} {
-				last = append(last, c10Step{K: k, A: a})
-			}
-		case c10ENMRegs:
-			for a := 0; a < 3; a++ {
-				last = append(last, c10Step{K: k, A: a})
-			}
-		case c10DeadlineR:
-			last = append(last, c10Step{K: k}, c10Step{K: k, A: 1})
-		default:
-			last = append(last, c10Step{K: k})
-		}
-	}
+	last := c10AllSteps()
 	nf := 0
 	for _, ls := range last {
 		for _, mode := range c10Modes {
@@ -584,4 +661,136 @@ func TestVerifC10ReadTS(t *testing.T) {
 	}
 	r.Floor("rejected_reads", 200)
 	r.Floor("accepted_reads_sent", 100)
+}
+
+// TestVerifC10Sessions: sequences of 2..4 sends on one RegionCache, mostly with forwarding enabled, so that what an
+// earlier send left in the cached region (the proxy store remembered by a successful forwarding, a switched leader,
+// store liveness, bumped store epochs, slow marks) is what the next send starts from; store liveness is scripted
+// per send (leader unreachable / reachable again / proxies unreachable as well, or left as the earlier sends and
+// the RPC errors made it).  Same oracle clauses for every send.
+func TestVerifC10Sessions(t *testing.T) {
+	r := vrep.New("C10", "c10-sessions", c10Rule+" ;; this unit: sequences of sends on one cached region with forwarding and scripted liveness; distinct additionally keyed by the scripts of the earlier sends, whether a proxy was remembered, and the liveness set")
+	defer r.Finish(t)
+	if vrep.ReplayPath() != "" {
+		return // TestVerifC10Scripts replays every kind of case
+	}
+	st := &c10Stats{}
+	defer st.close()
+	rng := vrep.Rand("c10-sessions")
+	all := append(append([]string{}, c10StatementKinds...), c10ExtraKinds...)
+	writeOrRead := func(i int) string {
+		if i%2 == 0 {
+			return c10Pick(rng, c10WriteCmds)
+		}
+		return c10Pick(rng, c10ReadCmds)
+	}
+	budgets := []int{40000, 2000, 100, 1}
+
+	// systematic part: send 1 succeeds through a proxy (leader unreachable from the start, or found unreachable by a
+	// failed direct RPC), then every fault kind for ever / once-then-for-ever on the same cached region.
+	n := 0
+	for _, stores := range []int{3, 4, 5} {
+		for first := 0; first < 2; first++ {
+			for li, ls := range c10AllSteps() {
+				for ci := 0; ci < 2; ci++ {
+					n++
+					voters := stores
+					if stores == 4 {
+						voters = 3
+					}
+					leader := rng.Intn(voters)
+					s1 := &c10Case{Stores: stores, Mode: "leader", Cmd: writeOrRead(ci), Forwarding: true, Leader: leader, RandSeed: rng.Int63(), ReadTS: 100}
+					if first == 0 {
+						s1.Unreach = []int{leader}
+					} else {
+						s1.Script = []c10Step{{K: c10RPC}}
+						s1.DownOnRPC = true
+					}
+					seq := []*c10Case{s1}
+					if n%3 == 0 {
+						// a finite send in between
+						seq = append(seq, &c10Case{Mode: "leader", Cmd: writeOrRead(ci), KeepLive: true, Script: []c10Step{ls}, RandSeed: rng.Int63(), ReadTS: 100, Async: n%2 == 0})
+					}
+					last := &c10Case{Mode: "leader", Cmd: writeOrRead(ci), KeepLive: true, Forever: true, Script: []c10Step{ls},
+						MaxSleep: budgets[(n+li)%len(budgets)], RandSeed: rng.Int63(), ReadTS: 100, Async: n%4 == 1, DownOnRPC: n%5 == 0}
+					if n%7 == 0 {
+						last.Mode = c10Pick(rng, c10Modes)
+					}
+					if n%4 == 3 {
+						last.TimeoutMs = 1000
+					}
+					seq = append(seq, last)
+					c10RunSession(r, st, seq)
+				}
+			}
+		}
+	}
+	r.Count("systematic_sessions", n)
+	r.Flush()
+
+	// random part
+	ns := vrep.Pick(2500, 40000)
+	for i := 0; i < ns; i++ {
+		k := 2 + rng.Intn(3)
+		var seq []*c10Case
+		for j := 0; j < k; j++ {
+			c := &c10Case{Mode: "leader"}
+			if rng.Intn(10) >= 6 {
+				c.Mode = c10Pick(rng, c10Modes)
+			}
+			switch x := rng.Intn(8); {
+			case x < 2: // success at once
+			case x < 6:
+				for l := 1 + rng.Intn(5); l > 0; l-- {
+					c.Script = append(c.Script, c10RandStep(rng, all))
+				}
+			default:
+				for l := rng.Intn(3); l > 0; l-- {
+					c.Script = append(c.Script, c10RandStep(rng, all))
+				}
+				c.Script = append(c.Script, c10RandStep(rng, all))
+				c.Forever = true
+			}
+			c10RandCfg(rng, c)
+			if j == 0 {
+				c.Forwarding = rng.Intn(4) > 0
+			}
+			c.KeepLive = j > 0 && rng.Intn(2) == 0
+			seq = append(seq, c)
+		}
+		// liveness per send, relative to the session's leader
+		stores, leader := seq[0].Stores, seq[0].Leader
+		for _, c := range seq {
+			other := (leader + 1 + rng.Intn(stores-1)) % stores
+			switch x := rng.Intn(10); {
+			case x < 3:
+				c.Unreach = nil
+			case x < 7:
+				c.Unreach = []int{leader}
+			case x < 8:
+				c.Unreach = []int{leader, other}
+			case x < 9:
+				c.Unreach = []int{other}
+			default:
+				c.Unreach = nil
+				for s := 0; s < stores; s++ {
+					if s != leader {
+						c.Unreach = append(c.Unreach, s)
+					}
+				}
+			}
+		}
+		c10RunSession(r, st, seq)
+	}
+	r.Count("random_sessions", ns)
+	r.Count("max_attempts_of_one_send", st.maxAttempts)
+
+	r.Floor("sessions", 500)
+	r.Floor("sends_on_reused_cache", 1000)
+	r.Floor("sends_starting_with_remembered_proxy", 300)
+	r.Floor("sends_forwarding_with_remembered_proxy", 200)
+	r.Floor("attempts_forwarded", 1000)
+	r.Floor("sends_with_retry", 500)
+	r.Floor("errors_budget_spent", 10)
+	r.Floor("region_error_returns", 300)
 }
